@@ -21,9 +21,16 @@ def number_messages(f, prefix):
                 if alt["t"] in ("clause", "ref", "call"):
                     alt["msg"] = "%s%d" % (prefix, n[0])
                     n[0] += 1
+    info = {}
     for kind, cnf in gen.iter_cnfs(f):
         if kind != "filter":
             visit(cnf)
+            for line in cnf:
+                for alt in line:
+                    if alt["t"] == "clause" and alt.get("msg") and alt.get("rhs") is None:
+                        q_ = alt["q"]
+                        special = (len(q_) == 1 and q_[0][0] == "var") or q_[-1][0] in ("filter", "keysfilter")
+                        info[alt["msg"]] = [alt["op"], bool(alt.get("neg")) != bool(alt.get("opneg")), special, bool(alt.get("some"))]
             # every 4th call stays without a message: a record of a call must then carry none (not a neighbouring call's)
             for line in cnf:
                 for alt in line:
@@ -34,6 +41,7 @@ def number_messages(f, prefix):
                 for alt in line:
                     if alt["t"] == "clause":
                         alt["msg"] = None
+    return info
 
 
 def leaf_checks(entry, out, depth=0):
@@ -252,6 +260,49 @@ def check_report(ctx, tree, report, case, label):
                     ctx.violation("call-message:%s:%s" % (label, where), "the %s of a call of %s carries message %r, but the calls of %s in the rules file have %s" % (
                         where, name, msg, name, sorted(src[name], key=str)), case)
                     ok = False
+    # every listed unary check must fail on the value it prints (the clause is found through its unique message)
+    umap = case.get("unary_clauses") or {}
+    if umap:
+        def uwalk(e):
+            (k_, v_), = e.items()
+            if k_ in ("Rule", "Disjunctions"):
+                for c_ in v_.get("checks", []):
+                    yield from uwalk(c_)
+            elif k_ == "Clause" and "Unary" in v_:
+                yield v_["Unary"]
+        for e in report.get("not_compliant", []):
+            for u in uwalk(e):
+                msg_ = (u.get("messages") or {}).get("custom_message")
+                chk_ = u.get("check") or {}
+                if msg_ not in umap or not isinstance(chk_, dict):
+                    continue
+                op_, neg_, special_, some_ = umap[msg_]
+                if "Resolved" in chk_:
+                    val_ = (chk_["Resolved"].get("value") or {}).get("value")
+                    tyname = {"is_string": str, "is_list": list, "is_struct": dict, "is_bool": bool}.get(op_)
+                    holds = None
+                    if op_ == "exists":
+                        holds = True
+                    elif op_ == "empty" and val_ is None:
+                        holds = None                        # emptiness of null is not documented
+                    elif op_ == "empty" and special_:
+                        holds = False                       # a resolved element: the result set is not empty
+                    elif op_ == "empty" and isinstance(val_, (str, list, dict)):
+                        holds = len(val_) == 0
+                    elif op_ == "is_int":
+                        holds = isinstance(val_, int) and not isinstance(val_, bool)
+                    elif op_ == "is_null":
+                        holds = val_ is None
+                    elif tyname is not None:
+                        holds = isinstance(val_, tyname) and not (tyname is not bool and isinstance(val_, bool))
+                    if holds is None:
+                        continue
+                    ctx.res.counts["listed_unary_checks_judged"] += 1
+                    if holds != neg_:
+                        ctx.violation("evidence:%s:listed-unary-check-does-not-fail" % label, "a listed failed check `%s%s` (message %s) prints the value %s, on which it holds" % (
+                            "not " if neg_ else "", op_, msg_, json.dumps(val_)[:80]), case)
+                        ok = False
+                        break
     # every listed comparison must fail on the very values it prints
     for e in report.get("not_compliant", []):
         ev = []
@@ -325,12 +376,32 @@ def shard(ctx):
         else:
             check_report(ctx, json.loads(rv["out"]), json.loads(rn["out"]), {"kind": "single", "rules": qtext, "data": qd}, "library")
             ctx.res.counts["query_comparison_gadgets"] += 1
+    # ---- unary checks over several values of which some pass and some fail: only the failing ones may be listed
+    if ctx.mine(1):
+        udoc = {"Resources": {"a": {"Tags": [1], "Name": "x"}, "b": {"Name": 5}, "c": {"Tags": [], "Name": ""}, "d": {"Tags": [2], "Name": ["n"]}}}
+        ud = json.dumps(udoc)
+        uclauses = [("not %t empty", "empty", True, True), ("!%t empty", "empty", True, True), ("%t !empty", "empty", True, True), ("%t empty", "empty", False, True),
+                    ("not Resources.*[ Tags exists ] empty", "empty", True, True), ("Resources.*.Name is_string", "is_string", False, False),
+                    ("not Resources.*.Name is_string", "is_string", True, False), ("Resources.*.Name !is_list", "is_list", True, False),
+                    ("Resources.*.Tags !exists", "exists", True, False), ("not Resources.*.Tags empty", "empty", True, False), ("Resources.*.Tags empty", "empty", False, False),
+                    ("Resources.*.Name is_int", "is_int", False, False)]
+        utext = "let t = Resources.*.Tags\n" + "".join("rule u%d {\n    %s <<um%d>>\n}\n" % (i, c[0], i) for i, c in enumerate(uclauses))
+        umap_ = {"um%d" % i: [c[1], c[2], c[3], False] for i, c in enumerate(uclauses)}
+        rv = ctx.w.run({"k": "rc", "data": ud, "rules": utext, "verbose": True})
+        rn = ctx.w.run({"k": "rc", "data": ud, "rules": utext, "verbose": False})
+        ctx.res.cases += 1
+        if rv.get("r") != "ok" or rn.get("r") != "ok":
+            ctx.inconclusive("crash" if (core.crash_signature(rv) or core.crash_signature(rn)) else "unary-gadget-error")
+        else:
+            check_report(ctx, json.loads(rv["out"]), json.loads(rn["out"]), {"kind": "single", "rules": utext, "data": ud, "unary_clauses": umap_}, "library")
+            ctx.res.counts["unary_gadgets"] += 1
     n = 500 if ctx.quick else 18000
     for t in range(n):
         doc = gen.gen_doc(rng)
         docs = json.dumps(doc)
         k = 1 if rng.random() < 0.75 else rng.randint(2, 3)
         files = []
+        uinfo = []
         for fi in range(k):
             f = gen.gen_file(rng, doc, o)
             # distinct names across files
@@ -341,7 +412,7 @@ def shard(ctx):
                     for alt in line:
                         if alt["t"] in ("ref", "call"):
                             alt["name"] = "f%d%s" % (fi, alt["name"])
-            number_messages(f, "msg%d_" % fi)
+            uinfo.append(number_messages(f, "msg%d_" % fi))
             files.append(gen.pfile(f))
         singles = []
         bad = False
@@ -358,7 +429,7 @@ def shard(ctx):
                 break
             tree = json.loads(rv["out"])
             rep = json.loads(rn["out"])
-            case = {"kind": "single", "rules": text, "data": docs}
+            case = {"kind": "single", "rules": text, "data": docs, "unary_clauses": uinfo[files.index(text)]}
             check_report(ctx, tree, rep, case, "library")
             singles.append((tree, rep))
             if len(ctx.res.samples) < 2 and rep.get("not_compliant"):
